@@ -2,7 +2,7 @@
    The model is Front/Denote.v (the listener's algorithm + postProcess); see Front/DenoteProps.v. *)
 From Coq Require Import String List ZArith Bool.
 Import ListNotations.
-Require Import Verif.Front.Ast Verif.Front.Denote Verif.Front.DenoteProps Verif.Gen.PrimTables.
+Require Import Verif.Front.Ast Verif.Front.Denote Verif.Front.DenoteProps Verif.Front.Canon Verif.Front.CanonProps Verif.Gen.PrimTables.
 Local Open Scope string_scope.
 Local Open Scope list_scope.
 
@@ -75,7 +75,7 @@ Print Assumptions C02_size_exact_refuted.
 Theorem C02_table_declared_exact : forall ap a table n es items a',
   dtable ap a table n es false items = Some a' -> aget n (a_types a) = None -> NoDup (item_names items) ->
   exists fields at_,
-    aget n (a_types a') = Some (Ty (if table then KRel fields (pks_of fields (item_names items)) else KTuple fields) false [] at_ "") /\
+    aget n (a_types a') = Some (Ty (if table then KRel fields (add_pks fields (item_names items) []) else KTuple fields) false [] at_ "") /\
     (forall f, In (TField f) items -> aget (fd_name f) fields = dfield ap [n] f) /\
     (forall x, aget x fields <> None -> In x (item_names items)) /\
     (forall n', n' <> n -> aget n' (a_types a') = aget n' (a_types a)) /\
@@ -110,3 +110,24 @@ Theorem C02_types_exact : forall s m, listen s = Some m ->
   forall k t, In t (types_of m k) <-> In t (declared_types s k).
 Proof. exact listen_types_exact. Qed.
 Print Assumptions C02_types_exact.
+
+(* ---- GLOBAL: completeness and soundness in one equality, on the sub-language accepted by the boolean wf_sub
+   (Front/Canon.v): applications in any number of interleaved blocks with long names, tags, attributes and
+   annotations; !type / !table with fields and annotations; !enum; !alias; !union; simple endpoints with
+   parameters, attributes, annotations and statement trees; events; mixin declarations; every type and endpoint
+   name declared once per application, field names distinct, size specifications acceptable. `canon` is the
+   declarative (group-by) reading; REST endpoints and subscriptions are outside wf_sub. *)
+Theorem C02_listen_is_canon_on_wf_sub : forall s, wf_sub s = true -> listen s = Some (canon s).
+Proof. exact listen_canon. Qed.
+Print Assumptions C02_listen_is_canon_on_wf_sub.
+
+(* ... and through postProcess, when nothing is mixed in and no reference is re-scoped (both decidable on canon s) *)
+Theorem C02_denote_is_canon_on_wf_sub : forall s,
+  wf_sub s = true -> no_mixins (canon s) = true -> no_rescope (canon s) = true -> denote s = Some (canon s).
+Proof. exact denote_canon. Qed.
+Print Assumptions C02_denote_is_canon_on_wf_sub.
+
+(* interleaving of the blocks of different applications is irrelevant (no well-formedness needed) *)
+Theorem C02_blocks_group_by_application : forall bs, fold_left tstep bs [] = grouped bs.
+Proof. exact fold_tstep_grouped. Qed.
+Print Assumptions C02_blocks_group_by_application.
